@@ -14,6 +14,7 @@ import (
 
 	"gonum.org/v1/gonum/graph"
 	"gonum.org/v1/gonum/graph/iterator"
+	"gonum.org/v1/gonum/graph/multi"
 	"gonum.org/v1/gonum/graph/simple"
 )
 
@@ -25,6 +26,10 @@ type spec struct {
 	directed bool
 	weighted bool
 	w        [5][5]float64
+	// self is the weight every node has to itself (the self argument of the
+	// weighted simple containers, read by the modularity code as A_ii); the
+	// containers still have no self edges in From.
+	self float64
 }
 
 func (sp *spec) has(i, j int) bool { return sp.w[i][j] != 0 }
@@ -32,6 +37,9 @@ func (sp *spec) has(i, j int) bool { return sp.w[i][j] != 0 }
 // a returns the adjacency weight used by the definitions: the edge weight for
 // weighted graphs, 1 for an edge of an unweighted graph.
 func (sp *spec) a(i, j int) float64 {
+	if i == j {
+		return sp.self
+	}
 	if sp.w[i][j] == 0 {
 		return 0
 	}
@@ -183,7 +191,10 @@ func (b *built) nodes() []graph.Node {
 // build constructs the gonum graph for sp. The dynamic type implements
 // exactly the interfaces of its kind: an unweighted graph is not a
 // graph.Weighted, an undirected one is not a graph.Directed.
-func build(sp *spec, idKind, order int) *built {
+func build(sp *spec, idKind, order, cont int) *built {
+	if cont == contMulti {
+		return buildMulti(sp, idKind, order)
+	}
 	n := sp.n
 	ids := idMap(idKind, n)
 	b := &built{sp: sp, ids: ids, idx: make(map[int64]int, n)}
@@ -212,7 +223,7 @@ func build(sp *spec, idKind, order int) *built {
 	}
 	switch {
 	case sp.directed && sp.weighted:
-		g := simple.NewWeightedDirectedGraph(0, math.Inf(1))
+		g := simple.NewWeightedDirectedGraph(sp.self, math.Inf(1))
 		for _, id := range ids {
 			g.AddNode(simple.Node(id))
 		}
@@ -234,7 +245,7 @@ func build(sp *spec, idKind, order int) *built {
 		base.freeze()
 		b.g = ordDir{base, g}
 	case sp.weighted:
-		g := simple.NewWeightedUndirectedGraph(0, math.Inf(1))
+		g := simple.NewWeightedUndirectedGraph(sp.self, math.Inf(1))
 		for _, id := range ids {
 			g.AddNode(simple.Node(id))
 		}
@@ -257,6 +268,101 @@ func build(sp *spec, idKind, order int) *built {
 				i, j = j, i
 			}
 			g.SetEdge(simple.Edge{F: simple.Node(ids[i]), T: simple.Node(ids[j])})
+		})
+		base.g = g
+		base.freeze()
+		b.g = ordUnd{base}
+	}
+	return b
+}
+
+// Containers.
+const (
+	contSimple = iota
+	contMulti  // multi.* graphs, every edge made of two parallel lines
+	nContainers
+)
+
+var contNames = []string{"simple", "multi"}
+
+// buildMulti constructs sp as a multigraph: every edge is two parallel lines
+// (stored with opposite orientations when undirected) whose default
+// EdgeWeightFunc summary (the sum) is the spec weight, w+1 and -1.
+func buildMulti(sp *spec, idKind, order int) *built {
+	if sp.self != 0 {
+		panic("harness: no self weight in multigraphs")
+	}
+	n := sp.n
+	ids := idMap(idKind, n)
+	b := &built{sp: sp, ids: ids, idx: make(map[int64]int, n)}
+	pos := make(map[int64]int, n)
+	for i, id := range ids {
+		b.idx[id] = i
+		switch order {
+		case ordAsc:
+			pos[id] = i
+		case ordDesc:
+			pos[id] = n - 1 - i
+		default:
+			pos[id] = (i + n - 1) % n
+		}
+	}
+	base := ordBase{pos: pos}
+	each := func(f func(u, v graph.Node, w float64)) {
+		for i := 0; i < n; i++ {
+			for j := 0; j < n; j++ {
+				if !sp.has(i, j) || (!sp.directed && j < i) {
+					continue
+				}
+				f(multi.Node(ids[i]), multi.Node(ids[j]), sp.w[i][j])
+			}
+		}
+	}
+	switch {
+	case sp.directed && sp.weighted:
+		g := multi.NewWeightedDirectedGraph()
+		for _, id := range ids {
+			g.AddNode(multi.Node(id))
+		}
+		each(func(u, v graph.Node, w float64) {
+			g.SetWeightedLine(g.NewWeightedLine(u, v, w+1))
+			g.SetWeightedLine(g.NewWeightedLine(u, v, -1))
+		})
+		base.g = g
+		base.freeze()
+		b.g = ordWDir{ordDir{base, g}, g}
+	case sp.directed:
+		g := multi.NewDirectedGraph()
+		for _, id := range ids {
+			g.AddNode(multi.Node(id))
+		}
+		each(func(u, v graph.Node, w float64) {
+			g.SetLine(g.NewLine(u, v))
+			g.SetLine(g.NewLine(u, v))
+		})
+		base.g = g
+		base.freeze()
+		b.g = ordDir{base, g}
+	case sp.weighted:
+		g := multi.NewWeightedUndirectedGraph()
+		for _, id := range ids {
+			g.AddNode(multi.Node(id))
+		}
+		each(func(u, v graph.Node, w float64) {
+			g.SetWeightedLine(g.NewWeightedLine(u, v, w+1))
+			g.SetWeightedLine(g.NewWeightedLine(v, u, -1))
+		})
+		base.g = g
+		base.freeze()
+		b.g = ordWUnd{base, g}
+	default:
+		g := multi.NewUndirectedGraph()
+		for _, id := range ids {
+			g.AddNode(multi.Node(id))
+		}
+		each(func(u, v graph.Node, w float64) {
+			g.SetLine(g.NewLine(u, v))
+			g.SetLine(g.NewLine(v, u))
 		})
 		base.g = g
 		base.freeze()
@@ -361,6 +467,8 @@ type graphSpace struct {
 	directed, weighted bool
 	stride, offset     int  // graph indices offset, offset+stride, ...
 	rotate             bool // one rotating ID map per graph even when the space is complete
+	noMulti            bool // simple containers only (routines documented for simple graphs)
+	self               float64
 }
 
 func (s graphSpace) name() string {
@@ -372,13 +480,17 @@ func (s graphSpace) name() string {
 	if s.weighted {
 		w = "w"
 	}
+	if s.self != 0 {
+		w += fmt.Sprintf("s%v", s.self)
+	}
 	return fmt.Sprintf("%s%s%d", k, w, s.n)
 }
 
-// forGraphs calls f for every graph of the space, with the ID map and
-// iteration order to use: in the quick tier a single combination that rotates
-// with the graph index, in the thorough tier (all=true) every ID map with a
-// rotating order.
+// forGraphs calls f for every graph of the space with the ID map, iteration
+// order and container to use: with all, every ID map (order and container
+// rotate with the graph index and the ID map, so that every graph meets both
+// containers); otherwise a single combination that rotates with the graph
+// index.
 func forGraphs(s graphSpace, all bool, f func(key string, mk func() *built)) {
 	total := nGraphs(s.n, s.directed, s.weighted)
 	stride := s.stride
@@ -397,8 +509,16 @@ func forGraphs(s graphSpace, all bool, f func(key string, mk func() *built)) {
 		for _, idKind := range kinds {
 			idKind := idKind
 			order := (idx/3 + idKind) % nOrders
-			key := fmt.Sprintf("%s#%d %s %s", s.name(), idx, idMapNames[idKind], orderNames[order])
-			f(key, func() *built { return build(mkSpec(s.n, s.directed, s.weighted, idx), idKind, order) })
+			cont := (idx/9 + idKind) % nContainers
+			if s.noMulti || s.self != 0 {
+				cont = contSimple
+			}
+			key := fmt.Sprintf("%s#%d %s %s %s", s.name(), idx, idMapNames[idKind], orderNames[order], contNames[cont])
+			f(key, func() *built {
+				sp := mkSpec(s.n, s.directed, s.weighted, idx)
+				sp.self = s.self
+				return build(sp, idKind, order, cont)
+			})
 		}
 	}
 }
